@@ -255,14 +255,18 @@ CHECKS = {
               '(no __call__), 2-D decision rules and nested slices are not generated.')),
     'C13': dict(
         level='model_checking',
-        technique='TLC model checking of Partition.tla + replay of every exported history into rsome.dro + TLC trace validation',
+        technique='TLC model checking of Partition.tla + replay of every exported history into rsome.dro + TLC trace validation (PartitionTrace.tla) of traces recorded from the real code by an external tracer (random API programs, the repository dro tests)',
         design_ref='DESIGN.md 2.1, 5/C13',
         text=('TLC enumerates every history of adapt()/slice calls within the constants on an implementation-shaped '
               'transcription of evtadapt/affadapt/comb_set/rule_var (ordered event lists, heap-aliased masks) and checks '
               'IsPartition, SharedIffSameEvent, ColsInjective, CombIsMeet, MaskExact, IllegalRaises; every exported state '
               'is replayed into the real library, which must raise exactly on illegal declarations and must reproduce the '
               'exact optimum and per-scenario values TLC computed from the DECLARED adaptation (a model granting more or '
-              'less freedom has a different optimum).'),
+              'less freedom has a different optimum). Code -> spec: harness/tracer.py wraps evtadapt / affadapt / slicing from outside (no source '
+              'change), records the calls of seeded random programs beyond the TLC constants (up to 6 scenarios, string and non-positional '
+              'labels, held slices, duplicates, unknown labels) and of the repository dro tests; PartitionTrace.tla replays each trace against the '
+              'actions of Partition.tla with the logged arguments, outcome and projected state and evaluates the ideal invariants in every '
+              'state; corrupted copies of accepted traces must be rejected.'),
         note=('Trusted: TLC, the concretisation in harness/replay_partition.py, HiGHS on tiny LPs. Bounded: <=5 scenarios, '
               '<=2 decision arrays of <=2 entries, <=2 random components, <=4 calls.')),
 }
